@@ -59,7 +59,38 @@ def extra_checks(rep, pid, ledger, known):
     rep.functions.append({"function": f"{FILE}:QCow2Snapshot.open", "contract": "copy of the image with the snapshot's L1 table and a reset stream buffer", "props": ["C07", "C08"]})
     ok = not why
     rep.obligations[name] = {"verdict": "discharged" if ok else "undischarged", "atoms": 1, "ms": 0, "backends": {"symexec"}, "stages": set(), "line": node.lineno, "props": ["C07", "C08"]}
+    # frame of the copied view: QCow2Snapshot.open replaces l1_table only, so the image object must not keep any other state that was
+    # computed from the active L1 table (a cached_property / lru_cache'd method / attribute set in __init__ whose body reads self.l1_table):
+    # a shallow copy would inherit it and the view would translate guest offsets through the active image's tables
+    name_f = "qcow2:QCow2/no_cached_state_derived_from_the_l1_table"
+    derived = []
+    try:
+        import ast as _ast
+        import os as _os
+
+        tree = _ast.parse(open(_os.path.join(rep.repo, FILE)).read())
+        cls = next(n for n in tree.body if isinstance(n, _ast.ClassDef) and n.name == "QCow2")
+        for fn in [n for n in cls.body if isinstance(n, _ast.FunctionDef)]:
+            decos = [_ast.unparse(d).split("(")[0].split(".")[-1] for d in fn.decorator_list]
+            reads_l1 = any(isinstance(x, _ast.Attribute) and x.attr == "l1_table" and isinstance(x.value, _ast.Name) and x.value.id == "self" for x in _ast.walk(fn))
+            if fn.name != "l1_table" and reads_l1 and any(d in ("cached_property", "lru_cache", "cache") for d in decos):
+                derived.append(f"{fn.name} (@{'/'.join(decos)})")
+            if fn.name == "__init__":
+                for st_ in _ast.walk(fn):
+                    if isinstance(st_, _ast.Assign) and any(isinstance(x, _ast.Attribute) and x.attr == "l1_table" for x in _ast.walk(st_.value)):
+                        derived.append(f"__init__: {_ast.unparse(st_)[:60]}")
+                    if isinstance(st_, _ast.Assign) and isinstance(st_.value, _ast.Call) and "lru_cache" in _ast.unparse(st_.value.func):
+                        wrapped = next((m_ for m_ in cls.body if isinstance(m_, _ast.FunctionDef) and any(_ast.unparse(a_) == f"self.{m_.name}" for a_ in st_.value.args)), None)
+                        if wrapped is not None and any(isinstance(x, _ast.Attribute) and x.attr == "l1_table" for x in _ast.walk(wrapped)):
+                            derived.append(f"__init__: lru_cache around {wrapped.name}, which reads l1_table")
+    except (OSError, SyntaxError, StopIteration) as e:
+        derived.append(f"class QCow2 not found ({e})")
+    rep.obligations[name_f] = {"verdict": "discharged" if not derived else "undischarged", "atoms": 1, "ms": 0, "backends": {"set-inclusion"}, "stages": set(), "line": 0, "props": ["C07", "C08"]}
     fails = _histories(rep)
+    if derived:
+        text = "state computed from the active L1 table is kept on the image object and inherited by snapshot views: " + "; ".join(derived)
+        p = driver.write_replay(pid, name_f, {"property": pid, "obligation": name_f, "verifier_output": text, **({"replayed": fails[0]} if fails else {})})
+        rep.violations.append((p, f"{name_f}: {text}" + (f" -- replayed: {fails[0]['problem']}" if fails else ""), not fails))
     if not ok:
         text = "; ".join(sorted(set(why)))
         p = driver.write_replay(pid, name, {"property": pid, "obligation": name, "verifier_output": text, **({"replayed": fails[0]} if fails else {})})
